@@ -392,8 +392,15 @@ class Gen:
             return r
         if k < 0.49:
             self.count("Initializer"); return initializer(np.array([rng.randint(1, 5), rng.randint(1, 5)], F32))
-        if k < 0.53:
+        if k < 0.51:
             self.count("Constant"); return op.const(np.array([rng.randint(1, 5), rng.randint(1, 5)], F32))
+        if k < 0.53:
+            # a 2-D constant / initializer given as a view that is not C-contiguous (transposed, Fortran-ordered, strided)
+            self.count("Constant(non-contiguous 2-D)")
+            m = np.array([[rng.randint(1, 9) for _ in range(3)] for _ in range(2)], F32)        # [2,3]
+            view = rng.choice([m.T, np.asfortranarray(m.T), np.array([[0] * 4] * 3, F32)[:, ::2] + m.T])   # each [3,2]
+            c2 = op.const(view) if rng.random() < 0.5 else initializer(view)
+            return op.reduce_sum(c2, op.const(np.array([0], np.int64)), keepdims=0)
         if k < 0.58 and "multi" in self.allow:
             self.count("Split")
             r = op.split(a, op.const(np.array([1, 1], np.int64)), outputs_count=2)
